@@ -124,3 +124,28 @@ def unit_shock(pid, j):
             O.append(core.prove_valid(base + '/shock:moves_outwards', hy, sp.And(us > 0, u2 > 0, u2 < us), goal_text='0 < u2 < us'))
     for o_ in O: o_.pop('cex_raw', None)
     return res
+
+
+def unit_scaling(j):
+    """C08: the shock state of Sedov._run under a change of units (rho0 has dimension M L^(omega-3), eblast M L^(j-1) T^-2, alpha is dimensionless)"""
+    res = {'obligations': [], 'functions': [{'ref': SRC + '::Sedov._run', 'sha256_16': R.source_hash(R.func_ref(SRC + '::Sedov._run'))}], 'engine_errors': []}; O = res['obligations']
+    try: paths = c11.ctor_paths(j, {})
+    except Unsupported as u_:
+        O.append(core.Obl('C08/sedov/geometry=%d/extraction' % j, 'open', 'extraction', 0.0, detail=str(u_)[:300])); return res
+    lM, lL, lT = sp.symbols('lambda_M lambda_L lambda_T', positive=True); cnt = {}
+    for p in paths:
+        if p.outcome != 'return': continue
+        o = p.value; A = o.attrs; typ, sing = A.get('solution_type'), A.get('special_singularity')
+        if sing != 'none': continue
+        cnt[typ] = cnt.get(typ, 0) + 1
+        base = 'C08/sedov/geometry=%d/%s%s' % (j, typ, '' if cnt[typ] == 1 else '~path%d' % cnt[typ]); hy = [gam > 1, om < j] + list(p.pc)
+        ALPHA = sp.Symbol('alpha_norm', positive=True); A['alpha'] = ALPHA
+        try: c11.shock_prefix(o)
+        except Unsupported as u_:
+            O.append(core.Obl(base + '/extraction', 'open', 'extraction', 0.0, detail=str(u_)[:300])); continue
+        sub = {rho0: rho0 * lM * lL ** (om - 3), eb: eb * lM * lL ** (j - 1) / lT ** 2, t: t * lT}
+        for nm, f in (('r2', lL), ('us', lL / lT), ('u2', lL / lT), ('rho1', lM / lL ** 3), ('rho2', lM / lL ** 3), ('p2', lM / (lL * lT ** 2))):
+            v = sp.sympify(A[nm])
+            o_ = core.prove_zero('%s/%s' % (base, nm), v.subs(sub, simultaneous=True) - f * v, hy, goal_text='%s(scaled inputs) == %s * %s(inputs)' % (nm, f, nm), extra_syms={lM, lL, lT}, positive=[ALPHA])
+            o_.pop('cex_raw', None); O.append(o_)
+    return res
